@@ -158,6 +158,8 @@ func (s *Server) handleAcquire(msg protocol.Message) error {
 		} else {
 			return err
 		}
+		// The acquire was refused; MsgFailure is the whole answer
+		return nil
 	}
 	respMsg := NewMsgAcquired()
 	if err := s.SendMessage(respMsg); err != nil {
